@@ -1,6 +1,7 @@
 package verifsched
 
 import (
+	"os"
 	"testing"
 	"time"
 
@@ -41,6 +42,14 @@ func TestRT(t *testing.T) {
 			fs := Check(c, h)
 			mine, other := relevant(fs)
 			log.add(c, NonTrivial(*flagProp, c, h), other, extras(h))
+			if h.Hang != "" && len(mine) == 0 {
+				// a hang is another property's finding, but this process is now
+				// wedged (blocked goroutines, a scheduler that never finishes):
+				// nothing further can be judged reliably in it
+				writeInconclusive("stopped after a hang that belongs to another property")
+				log.close()
+				os.Exit(0)
+			}
 			if len(mine) > 0 {
 				failedOnce.Store(true)
 				writeFail("rt", c, mine)
